@@ -250,7 +250,7 @@ def sopts_kwargs(o):
 
 
 HEADER = """From Coq Require Import List String ZArith Bool.
-From AV Require Import Core.Json Core.Errors Core.Text Core.Util Small.Ordering Deser.Model Deser.Run Ser.Model Ser.Run.
+From AV Require Import Core.Json Core.Errors Core.Text Core.Util Small.Ordering Deser.Model Deser.Run Ser.Model Ser.Spec Ser.Run.
 Import ListNotations.
 Open Scope string_scope.
 Definition al_id : string -> string := fun s => s.
